@@ -169,6 +169,19 @@ Example C03_gate_examples :
   (exists s', step s (OGov [PCNodeShare P18; PCSubDelay 7]) = OOk s' /\ p_node_share (pars s') = P18 /\ p_sub_delay (pars s') = 7).
 Proof. vm_compute. repeat split. eexists. repeat split. Qed.
 
+(* crossed price bounds (a minimum above the maximum: each per-key validator accepts its half) are inside this theorem's
+   domain: the sweep ends with the price at the new minimum and the chain goes on; lowering the minimum again later leaves
+   the price above the maximum (only the modified vector is swept), which is why the price statement C11 is made for
+   histories that never cross the bounds *)
+Example C03_crossed_bounds_do_not_halt :
+  match run (init wt_genesis) (wt_ops1 ++ [OBegin 1500; OGov [PCMaxGb [(1%N, 3)]; PCMinGb [(1%N, 9)]]; OEnd;
+                                           OBegin 1600; OGov [PCMinGb [(1%N, 1)]]; OEnd]) with
+  | RunOk s => map (fun n => coins_list (nd_gb_prices n)) (all_nodes s) = [[(1%N, 9)]] /\
+               coins_list (p_max_gb (pars s)) = [(1%N, 3)] /\ coins_list (p_min_gb (pars s)) = [(1%N, 1)]
+  | _ => False
+  end.
+Proof. vm_compute. repeat split. Qed.
+
 Print Assumptions C03_chain_never_halts.
 Print Assumptions C03_run_never_halts.
 Print Assumptions C03_step_never_halts.
